@@ -373,9 +373,13 @@ class AstToDjangoQVisitor(visitor.NodeVisitor):
         if not owner_path:
             raise ex.TypeException("lambda_expression", str(node.owner))
 
-        path_to_outerref, related_model = reverse_relationship(
-            owner_path, self.root_model
-        )
+        try:
+            path_to_outerref, related_model = reverse_relationship(
+                owner_path, self.root_model
+            )
+        except AttributeError:
+            # The path leads through a plain field, not through relationships:
+            raise ex.TypeException(type(node.operator).__name__, str(node.owner))
         # The related model's manager need not be called `objects`, and its
         # foreign key need not point at the primary key (`to_field`):
         subquery = related_model._default_manager.filter(
